@@ -47,7 +47,7 @@ REGISTRY = {
     },
     "C11": {
         "title": "expiry is exact",
-        "teq": [seq({"seedoff": 11}),
+        "teq": [seq({"seedoff": 11, "lastsec": 1}, {"lastsec": 1}),
                 {"engine": "crash", "quick": {"n": 1, "points": 10, "ttl": 1, "seedoff": 211}, "thorough": {"tier": "thorough", "ttl": 1, "seedoff": 211}, "oracle": True, "mismatch_is_failure": True, "timeout": 3400,
                  "nontrivial": lambda case, res: "plan=" in case and res.startswith("ok") and "keys=-" not in res,
                  "distinct_key": lambda case, res: res,
